@@ -16,21 +16,34 @@ int_t in_etree1[CAP], in_post[CAP+1], in_bnz, in_bcolptr[CAP+1], in_browind[BNZ]
  * the end of its object, so every overrun is an out-of-bounds access (underruns / use after free are NOT detected).  Slots are handed
  * out in call order and never reused; g_live/g_ptr give the leak accounting: a block is live from its allocation to its (single) free. */
 #define SLOTLEN ((CAP + 1) > BNZ ? (CAP + 1) : BNZ)
-#define NSLOT 10
+#define NSLOT (PATH == 1 ? 2 : PATH == 2 ? 6 : 10)      /* blocks the path allocates (same numbers in defs.h) */
 int_t g_pool0[SLOTLEN], g_pool1[SLOTLEN], g_pool2[SLOTLEN], g_pool3[SLOTLEN], g_pool4[SLOTLEN], g_pool5[SLOTLEN], g_pool6[SLOTLEN], g_pool7[SLOTLEN], g_pool8[SLOTLEN], g_pool9[SLOTLEN];
 int g_live[NSLOT], g_nalloc, g_nfree, g_badfree, g_badalloc; void *g_ptr[NSLOT];
 NCPformat g_ncp; int g_ncp_live;
 void *superlu_malloc(size_t bytes) {
   int_t *base; int s = g_nalloc;
   if (s >= NSLOT || bytes > SLOTLEN * sizeof(int_t) || bytes % sizeof(int_t) != 0) { g_badalloc = 1; __CPROVER_assume(0); }
-  base = s == 0 ? g_pool0 : s == 1 ? g_pool1 : s == 2 ? g_pool2 : s == 3 ? g_pool3 : s == 4 ? g_pool4 : s == 5 ? g_pool5 : s == 6 ? g_pool6 : s == 7 ? g_pool7 : s == 8 ? g_pool8 : g_pool9;
+  base = s == 0 ? g_pool0 : s == 1 ? g_pool1
+#if PATH >= 2
+       : s == 2 ? g_pool2 : s == 3 ? g_pool3 : s == 4 ? g_pool4 : s == 5 ? g_pool5
+#endif
+#if PATH >= 3
+       : s == 6 ? g_pool6 : s == 7 ? g_pool7 : s == 8 ? g_pool8 : s == 9 ? g_pool9
+#endif
+       : (int_t *) 0;
   g_nalloc = s + 1; g_live[s] = 1;
   g_ptr[s] = base + (SLOTLEN - bytes / sizeof(int_t));
   return g_ptr[s];
 }
 void superlu_free(void *addr) {
 #define FR(s) if (addr == g_ptr[s] && s < g_nalloc) { if (!g_live[s]) g_badfree = 1; g_live[s] = 0; g_nfree++; return; }
-  FR(0) FR(1) FR(2) FR(3) FR(4) FR(5) FR(6) FR(7) FR(8) FR(9)
+  FR(0) FR(1)
+#if PATH >= 2
+  FR(2) FR(3) FR(4) FR(5)
+#endif
+#if PATH >= 3
+  FR(6) FR(7) FR(8) FR(9)
+#endif
   g_badfree = 1;                                       /* not a block of this allocator */
 }
 int_t *intMalloc(int_t n) { return (int_t *) superlu_malloc((size_t) n * sizeof(int_t)); }      /* SRC/pmemory.c minus the exit(1) on NULL */
